@@ -309,6 +309,8 @@ def drops(F, R):
 
 
 def check(F, R, tier):
+    from . import C08
+    C08.segment_size(F, R)   # the static data segment reserves the worst-case alignment slack (every configured chunk fits)
     # F20b: an index obtained from `.enumerate()` and used to address the enumerated collection (remove / index) is an index INTO that collection:
     # enumerate is applied before any index-shifting adaptor (skip, filter, rev, step_by ..); otherwise the wrong entry is removed
     n_en = 0
